@@ -4,6 +4,7 @@
 #include <atomic>
 #include <chrono>
 #include <cstdint>
+#include <cstring>
 #include <functional>
 #include <map>
 #include <set>
@@ -50,14 +51,24 @@ struct SubCrash
     int64_t substep = -1;
     bool timeout = false;
     std::string kind, frame, head;
+    std::string label;  // what the worker said it was doing (Sub::label)
 };
 // Progress marker inside a case: a case that enumerates many inputs calls at(k) before input k; when the
 // worker dies the supervisor attributes the crash to (case, k) and resumes the case from k + 1.
+extern std::string g_tier;         // tier of the running check (recorded in replay files)
 extern int g_substep_timeout_s;  // watchdog re-armed at every sub-step (default 20 s)
 struct Sub
 {
     std::atomic<int64_t>* slot = nullptr;
+    char* label_buf = nullptr;  // 1024 bytes of shared memory
     void at(int64_t k);
+    void label(const std::string& s)
+    {
+        if (!label_buf) return;
+        size_t n = s.size() < 1023 ? s.size() : 1023;
+        memcpy(label_buf, s.data(), n);
+        label_buf[n] = 0;
+    }
 };
 struct CaseResult
 {
